@@ -28,7 +28,8 @@ ASSUMPTIONS = [
 FLOORS = {'countif_cases': 1000, 'countifs_cases': 200, 'match_cases': 500,
           'vlookup_cases': 500, 'choose_cases': 100,
           'operator_prefixes_seen': 6, 'library_calls': 500,
-          'countifs_rectangles': 100, 'choose_with_ranges': 100}
+          'countifs_rectangles': 100, 'choose_with_ranges': 100,
+          'criteria_vs_operator_cases': 50}
 ANCHOR_FUNCS = {
     'xlcalculator/xlfunctions/lookup.py': ['MATCH', 'VLOOKUP', 'CHOOSE'],
     'xlcalculator/xlfunctions/statistics.py': ['COUNTIF', 'COUNTIFS'],
@@ -394,6 +395,35 @@ def run(ctx):
             ctx.event('choose_with_ranges')
         B.maybe_flush()
     B.flush()
+    # ---- text criteria and the = operator agree on what "the same text" is ------
+    # (letters with several lower- or upper-case forms: the statement only says
+    # "case-insensitively"; whichever folding is used, COUNTIF's "=x" must
+    # select the cells c for which the formula =c=x is TRUE)
+    if ctx.shard in (0, 1) or thorough:
+        special = ['Σ', 'σ', 'ς', 'µ', 'μ', 'Μ', 'straße', 'STRASSE', 'ǆ',
+                   'ǅ', 'Ǆ', 'a', 'A', 'é', 'É', 'İ', 'i', 'ı', 'I']
+        col = list(special)
+        rng.shuffle(col)
+        arr = T.Array([[v] for v in col])
+        for x in special:
+            eq = [monitors.call_outcome(F['OP_EQ'], T.Text(c), T.Text(x))
+                  for c in col]
+            n_eq = sum(1 for g in eq if g == ('value', ('bool', True)))
+            for crit, want_n in ((x, n_eq), ('=' + x, n_eq),
+                                 ('<>' + x, len(col) - n_eq)):
+                got = monitors.call_outcome(F['COUNTIF'], arr, crit)
+                ctx.event('library_calls')
+                ctx.event('criteria_vs_operator_cases')
+                ctx.case(('criteria-vs-operator', x, crit[:2]))
+                if got != ('value', ('num', float(want_n))):
+                    ctx.fail(f'COUNTIF({col}, {crit!r}) -> {got}, but the '
+                             f'= operator finds {n_eq} of these cells equal '
+                             f'to {x!r}',
+                             {'function': 'COUNTIF', 'data': col,
+                              'criterion': crit, 'observed': got,
+                              'cells_equal_by_operator': n_eq},
+                             monitor='criteria-vs-operator',
+                             group='criteria-vs-operator:' + crit[:2])
     ctx.data['ops'] = sorted(ops_seen - {''})
 
 
